@@ -399,8 +399,9 @@ impl<'a> Ctx<'a> {
             if !spec_ok {
                 // a generator bug, not a finding about the checker
                 self.rep.count(&format!("generator-invalid:{}:{}", case.origin, spec_violated.join("+")));
-                if self.rep.notes.len() < 8 {
-                    self.rep.notes.push(format!("generator produced a spec-invalid document ({}): {}", spec_violated.join("+"), case.text.chars().take(300).collect::<String>()));
+                let key = format!("generator_invalid_example:{}", spec_violated.join("+"));
+                if !self.rep.extra.contains_key(&key) {
+                    self.rep.extra.insert(key, case.to_json(&self.prop));
                 }
                 return;
             }
@@ -476,7 +477,7 @@ fn corpus() -> Vec<Case> {
     let c = |name: &str, doc: &str, labels: Vec<Label>| Case { sdl: vec![s1.to_string()], text: doc.to_string(), labels, origin: format!("corpus:{name}"), features: vec![name.to_string()], raw_schema: false };
     vec![
         // C03 rows
-        c("d-unknown-input-field", "query Q { f(x: {c: 1}) }", lbl("5.6.2", "op/arg:top/optional-field-omitted", "unknown-input-field")),
+        c("d-unknown-input-field", "query Q { f(n: 1, x: {c: 1}) }", lbl("5.6.2", "op/arg:top/optional-field-omitted", "unknown-input-field")),
         c("e-directive-on-inline-fragment", "query Q { a { ... @nope { x } } }", lbl("5.7.1", "op/dir@INLINE_FRAGMENT", "unknown-directive")),
         c("e-directive-on-spread", "query Q { a { ...F @nope } } fragment F on A { x }", lbl("5.7.1", "op/dir@FRAGMENT_SPREAD", "unknown-directive")),
         c("e-directive-on-fragment-definition", "query Q { a { ...F } } fragment F on A @nope { x }", lbl("5.7.1", "frag1/dir@FRAGMENT_DEFINITION", "unknown-directive")),
